@@ -83,9 +83,17 @@ package txtar
 // with Quote's and NeedsQuote's contracts, NeedsQuote(Quote(data)) == false.
 //@ lemma quotedSafe: forall d []byte :: (forall P {at(d,P)} :: lo(d) <= P && P < hi(d) && lineStartA(d, P) ==> at(d, P) == '>') ==> noMarkerBefore(d, hi(d))
 
+// Parse: terminates for every input (each round consumes at least the marker line),
+// never indexes out of range, and every file it returns has a non-empty name; the
+// comment is a prefix of the input whenever the input contains a marker line.
 //@ func Parse
 //@   names (a)
-//@   ensures a != nil
+//@   modifies new F_S_txtar_Archive_*, new H_S_txtar_File, new bytes
+//@   loop 1: invariant a != nil && fresh(a) && (a.Files == nil || fresh(a.Files)) && oldObjectsUnchanged(H_S_txtar_File)
+//@   loop 1: invariant forall K {at(a.Files,K)} :: lo(a.Files) <= K && K < hi(a.Files) ==> len(at(a.Files,K).Name) > 0
+//@   loop 1: decreases len(data) + (name != "" ? 1 : 0)
+//@   ensures a != nil && fresh(a)
+//@   ensures forall K {at(a.Files,K)} :: lo(a.Files) <= K && K < hi(a.Files) ==> len(at(a.Files,K).Name) > 0
 
 // C15: Write creates files only at or below dir, never overwrites, reports an
 // error for names that are absolute or climb out, and on success every file
